@@ -20,7 +20,8 @@ over `TestResult` / `TextTestResult` leaves and **every** call history (no bound
 * `C04_not_earlier`            : `shouldStop` only after `stop()` or after a bad outcome with fail-fast set somewhere
 * `C04_exit`                   : exit status and summary of `testtools.run` for a module of test cases, with and without `-f`
 * `C04_finding_tfr`, `C04_finding_nested` : the model reproduces the two known findings
-Not proved (correspondence only): the clause `failfast-kept` (wrapping leaves `failfast` alone); everything through `ExtendedToStreamDecorator` + `StreamFailFast`.
+* `C04_failfast_kept_partial`  : wrapping leaves the `failfast` of every result alone (D14), outside finding `nestedMultiFailfast`
+Not proved (correspondence only): `TextTestResult` behind `ThreadsafeForwardingResult`; everything through `ExtendedToStreamDecorator` + `StreamFailFast`.
 -/
 namespace TTV.Props.C04
 open TTV.Result TTV.ResC04 TTV.Spec.C04 TTV.Lemmas.LeafAct TTV.Lemmas.ResEmit
@@ -1715,6 +1716,114 @@ theorem setSameL : ∀ (ss : List Shape), Shape.wfL ss = true → ownLeavesL ss 
       | _ => simp [Shape.wfL] at hw
 end
 
+theorem restore_collapse : ∀ (ss : List Shape) (st : StL ss) (b : Bool) (saved : List Bool),
+    restoreL ss (stepL ss st (.setFailfast b)) saved = restoreL ss st saved
+  | [], _, _, _ => rfl
+  | s :: ss, (x, xs), b, saved => by
+      simp only [stepL, restoreL, lastWrite s x b, restore_collapse ss xs b]
+
+/-- a target whose reachable leaves all carry what the target reads as its own `failfast` -/
+theorem uniform_of : ∀ (c : Shape),
+    (match reachMulti c with
+      | some ds => (ffReachL ds).all (· == ffReadHead ds) = true
+      | none => True) → (ffReach c).all (· == ffRead c) = true
+  | .tt ff, _ => by simp [ffReach, ffRead]
+  | .text ff, _ => by simp [ffReach, ffRead]
+  | .sink _, _ => rfl
+  | .tbt, _ => rfl
+  | .deco _, _ => rfl
+  | .tagger _ _ _, _ => rfl
+  | .tfr _, _ => rfl
+  | .e2s _, _ => rfl
+  | .multi ds, h => by simpa [reachMulti, ffReach, ffRead] using h
+  | .etod x, h => by
+      simp only [ffReach, ffRead]
+      split
+      · rename_i hc
+        simp only [hc, Bool.true_and]
+        exact uniform_of x (by simpa [reachMulti] using h)
+      · rfl
+
+mutual
+theorem kept_init : ∀ (s : Shape), s.wf = true → ownLeaves s = true → s.noStream = true → mixedNested s = false →
+    leafFFs s (init s) = leafParams s ∧ failfastOf s (init s) = ffRead s
+  | .sink _, _, ho, _, _ => by simp [ownLeaves] at ho
+  | .tbt, _, ho, _, _ => by simp [ownLeaves] at ho
+  | .tt ff, _, _, _, _ => ⟨rfl, rfl⟩
+  | .text ff, _, _, _, _ => ⟨rfl, rfl⟩
+  | .etod c, hw, ho, hn, hm => by
+      have ho' : ownLeaves c = true := by simpa [ownLeaves] using ho
+      have hw' : c.wf = true := by cases c <;> simp_all [Shape.wf, ownLeaves]
+      obtain ⟨h1, h2⟩ := kept_init c hw' ho' (by simpa [Shape.noStream] using hn) (by simpa [mixedNested] using hm)
+      refine ⟨h1, ?_⟩
+      simp only [failfastOf, init, ffRead]
+      split
+      · rename_i hc; simp [hc, h2]
+      · rename_i hc; simp [hc]
+  | .deco c, hw, ho, hn, hm =>
+      ⟨(kept_init c (by simpa [Shape.wf] using hw) (by simpa [ownLeaves] using ho) (by simpa [Shape.noStream] using hn)
+        (by simpa [mixedNested] using hm)).1, rfl⟩
+  | .tagger _ _ c, hw, ho, hn, hm =>
+      ⟨(kept_init c (by simpa [Shape.wf] using hw) (by simpa [ownLeaves] using ho) (by simpa [Shape.noStream] using hn)
+        (by simpa [mixedNested] using hm)).1, rfl⟩
+  | .tfr c, hw, ho, hn, hm => by
+      have hw' : c.wf = true := by cases c <;> simp_all [Shape.wf]
+      exact ⟨(kept_init c hw' (by simpa [ownLeaves] using ho) (by simpa [Shape.noStream] using hn)
+        (by simpa [mixedNested] using hm)).1, rfl⟩
+  | .e2s _, _, _, hn, _ => by simp [Shape.noStream] at hn
+  | .multi cs, hw, ho, hn, hm => by
+      have ho' : ownLeavesL cs = true := by simpa [ownLeaves] using ho
+      have hn' : Shape.noStreamL cs = true := by simpa [Shape.noStream] using hn
+      have hw' : Shape.wfL cs = true ∧ cs ≠ [] := by
+        cases cs with
+        | nil => simp [Shape.wf] at hw
+        | cons d ds => exact ⟨by simpa [Shape.wf] using hw, by simp⟩
+      simp only [mixedNested, Bool.or_eq_false_iff, List.any_eq_false] at hm
+      have hu : ∀ c ∈ cs, (ffReach c).all (· == ffRead c) = true := by
+        intro c hc
+        apply uniform_of
+        have := hm.2 c hc
+        cases hr : reachMulti c with
+        | none => trivial
+        | some ds => rw [hr] at this; simpa using this
+      have key := kept_restoreL cs hw'.1 ho' hn' hm.1 (fun c hc => hu c hc)
+      simp only [leafFFs, leaves, init, failfastOf, ffRead, restore_collapse]
+      obtain ⟨k1, k2⟩ := key
+      refine ⟨by simpa [leafFFsL, leafParams] using k1, ?_⟩
+      cases cs with
+      | nil => exact absurd rfl hw'.2
+      | cons d ds => simpa [ffReadHead] using k2
+theorem kept_restoreL : ∀ (ss : List Shape), Shape.wfL ss = true → ownLeavesL ss = true → Shape.noStreamL ss = true →
+    mixedNestedL ss = false → (∀ c ∈ ss, (ffReach c).all (· == ffRead c) = true) →
+    leafFFsL ss (restoreL ss (initL ss) (failfastL ss (initL ss))) = leafParamsL ss ∧
+    (failfastL ss (restoreL ss (initL ss) (failfastL ss (initL ss)))).headD false = ffReadHead ss
+  | [], _, _, _, _, _ => ⟨rfl, rfl⟩
+  | s :: ss, hw, ho, hn, hm, hu => by
+      simp only [ownLeavesL, Bool.and_eq_true] at ho
+      simp only [Shape.noStreamL, Bool.and_eq_true] at hn
+      simp only [mixedNestedL, Bool.or_eq_false_iff] at hm
+      cases s with
+      | etod e =>
+        simp only [Shape.wfL, Bool.and_eq_true] at hw
+        obtain ⟨i1, i2⟩ := kept_init (.etod e) hw.1 ho.1 hn.1 hm.1
+        obtain ⟨r1, _⟩ := kept_restoreL ss hw.2 ho.2 hn.2 hm.2 (fun c hc => hu c (List.mem_cons_of_mem _ hc))
+        have hus := hu (.etod e) List.mem_cons_self
+        obtain ⟨a1, a2⟩ := setSame (.etod e) hw.1 ho.1 hn.1 (init (.etod e)) (ffRead (.etod e)) i1 hus
+        simp only [initL, failfastL, restoreL, List.headD_cons, List.tail_cons, i2]
+        refine ⟨?_, ?_⟩
+        · simp only [leafFFsL, leafFFs, leavesL, leafParamsL, List.map_append] at a1 r1 ⊢
+          rw [a1, r1]
+        · simpa [ffReadHead] using a2 rfl
+      | _ => simp [Shape.wfL] at hw
+end
+
+/-- **C04 (wrapping keeps fail-fast).**  Building any graph of adapters over results leaves the `failfast` each
+result was constructed with unchanged (D14) — except for a `MultiTestResult` holding another `MultiTestResult`
+whose reachable leaves differ from its first target's setting (finding `nestedMultiFailfast`). -/
+theorem C04_failfast_kept_partial (s : Shape) (hw : s.wf = true) (ho : ownLeaves s = true) (hn : s.noStream = true)
+    (hm : mixedNested s = false) : (leaves s (init s)).map LeafSt.failfast = leafParams s :=
+  (kept_init s hw ho hn hm).1
+
 /-! ## the proved clauses of the executable specification hold of the model -/
 theorem obs_map (s : Shape) (st : St s) (h : List Call) (f : Obs → α) :
     ((states s st h).map (observe s)).map f = (states s st h).map (fun x => f (observe s x)) := by
@@ -1797,25 +1906,20 @@ theorem ffStops_tfr (ch : Shape) : ∀ (h : List Call) (st : St (.tfr ch)),
       refine ⟨.inl ?_, ffStops_tfr ch h _ hh.2 hf'⟩
       simp [readFF, caps, failfastOf, hf0]
 
-/-- the clauses of `Spec.C04.clauses` proved of the model so far (not yet: `failfast-kept` — these are checked against the implementation and the model by the correspondence only) -/
-def provedClauses : List (String × (Input → Trace → Bool)) :=
-  [("verdict", cVerdict), ("text-summary", cText), ("failfast-stops", cFailfastStops), ("stop-sticky", cSticky),
-   ("not-earlier", cNotEarlier), ("stop-reaches", cStopReaches), ("exit-status", cExit)]
-
 /-- **Headline (partial).**  Full statement: `∀ i, i.shape.wf → ¬ tfrOwnFailfastDirect i → ¬ nestedMultiFailfast i →
-Spec.C04.holds i (model i) = true`.  Proved here: the clauses `verdict`, `text-summary`, `failfast-stops`,
-`stop-sticky`, `not-earlier`, `stop-reaches`, `exit-status` for every input whose graph has no stream pipeline and no `TextTestResult` behind a
-`ThreadsafeForwardingResult`, outside the finding class `tfrOwnFailfastDirect`. -/
+Spec.C04.holds i (model i) = true`.  Proved here for every input whose graph has no stream pipeline
+(`ExtendedToStreamDecorator` + `StreamFailFast` is checked by the correspondence only) and no `TextTestResult`
+behind a `ThreadsafeForwardingResult`, outside the two known-finding classes: all eight clauses. -/
 theorem holds_model_partial (i : Input) (hw : i.shape.wf = true) (hn : i.shape.noStream = true)
-    (ht : i.shape.hasTfr = false ∨ hasText i.shape = false) (hc : tfrOwnFailfastDirect i = false) :
-    provedClauses.all (fun c => c.2 i (model i)) = true := by
-  simp only [provedClauses, List.all_cons, List.all_nil, Bool.and_true, Bool.and_eq_true]
+    (ht : i.shape.hasTfr = false ∨ hasText i.shape = false) (hc : tfrOwnFailfastDirect i = false)
+    (hm : nestedMultiFailfast i = false) : holds i (model i) = true := by
+  simp only [holds, clauses, List.all_cons, List.all_nil, Bool.and_true, Bool.and_eq_true]
   have scope : inScope i = true → i.hist.all Call.ok = true ∧ ownLeaves i.shape = true ∧
       ((hasText i.shape || Spec.C17.Shape.hasE2s i.shape) = false ∨ i.hist.head? = some .startTestRun) := by
     intro h
     simp only [inScope, Bool.and_eq_true, Bool.or_eq_true, Bool.not_eq_true', beq_iff_eq] at h
     exact ⟨h.1.1, h.1.2, h.2⟩
-  refine ⟨?_, ?_, ?_, ?_, ?_, ?_, ?_⟩
+  refine ⟨?_, ?_, ?_, ?_, ?_, ?_, ?_, ?_⟩
   · -- verdict
     cases hs : inScope i
     · simp [cVerdict, hs]
@@ -1848,6 +1952,12 @@ theorem holds_model_partial (i : Input) (hw : i.shape.wf = true) (hn : i.shape.n
             simp [this]
       · simp only [cText, model, Bool.or_eq_true]
         right; exact notext ht
+  · -- fail-fast kept
+    cases hs : inScope i
+    · simp [cFailfastKept, hs]
+    · obtain ⟨_, ho, _⟩ := scope hs
+      simp only [cFailfastKept, hs, Bool.not_true, Bool.false_or, beq_iff_eq, model]
+      exact C04_failfast_kept_partial i.shape hw ho hn hm
   · -- fail-fast stops
     cases hs : inScope i
     · simp [cFailfastStops, hs]
